@@ -79,6 +79,7 @@ type State struct {
 	guard *Term
 	heap  map[string]*Term
 	alloc *Term
+	epoch int // components not in heap yet start from the base constant of this epoch
 }
 
 func (s *State) clone() *State {
@@ -86,7 +87,14 @@ func (s *State) clone() *State {
 	for k, v := range s.heap {
 		h[k] = v
 	}
-	return &State{guard: s.guard, heap: h, alloc: s.alloc}
+	return &State{guard: s.guard, heap: h, alloc: s.alloc, epoch: s.epoch}
+}
+
+// havocAll forgets the whole modelled heap (a call that may modify anything).
+func (x *Exec) havocAll(st *State) {
+	x.epochN++
+	st.heap = map[string]*Term{}
+	st.epoch = x.epochN
 }
 
 type Obligation struct {
@@ -144,6 +152,8 @@ type Exec struct {
 	oldCache         map[string]Value
 	constRefs        []*Term
 	splitPathRun     bool
+	pendingAll       bool
+	declaredAll      bool
 }
 
 type modEntry struct {
@@ -241,7 +251,7 @@ func (x *Exec) comp(st *State, name string, s Sort) *Term {
 		return t
 	}
 	x.compSort[name] = s
-	t := x.w.Const(name+"!0", s)
+	t := x.w.Const(fmt.Sprintf("%s!%d", name, st.epoch), s)
 	st.heap[name] = t
 	return t
 }
@@ -669,7 +679,14 @@ func (x *Exec) mergeStatesRel(guards, conds []*Term, sts []*State) *State {
 		s.guard = guards[0]
 		return s
 	}
-	out := &State{heap: map[string]*Term{}}
+	out := &State{heap: map[string]*Term{}, epoch: sts[0].epoch}
+	for _, s := range sts[1:] {
+		if s.epoch != out.epoch {
+			x.epochN++
+			out.epoch = x.epochN
+			break
+		}
+	}
 	out.guard = ts.Or(guards...)
 	keys := map[string]bool{}
 	for _, s := range sts {
@@ -1014,7 +1031,14 @@ type loop struct {
 	minPos  token.Pos
 	depth   int
 	// per-execution data
-	decr0 []*Term
+	decr0   []*Term
+	autoInv []autoInv
+}
+
+type autoInv struct {
+	phi   *ssa.Phi
+	entry *Term
+	up    bool
 }
 
 type loopInfo struct {
